@@ -28,6 +28,8 @@ pub struct SimDb {
     pub storage: Storage<Self>,
     #[tracked]
     cells: BTreeMap<u8, SourceId<Cell>>,
+    #[tracked]
+    tags: BTreeMap<u8, i64>,
 }
 
 impl SimDb {
@@ -35,6 +37,7 @@ impl SimDb {
         SimDb {
             storage: Storage::new_with_capacity(capacity.max(1).try_into().unwrap()),
             cells: BTreeMap::new(),
+            tags: BTreeMap::new(),
         }
     }
 }
@@ -160,6 +163,18 @@ impl Env for Real<'_> {
         let r = self.boxed_ref(m);
         let row = r.lookup(self.0).clone();
         *call(NKey::ViaRef(row), || via_ref(self.0, r))
+    }
+    fn tags(&self) -> i64 {
+        with_tracker(|t| t.read(Dep::TagCounter));
+        let view = self.0.get_tags();
+        view.tracked()
+            .iter()
+            .fold(3i64, |acc, (k, v)| acc.wrapping_mul(11).wrapping_add(*k as i64 * 3 + *v))
+    }
+    fn tag(&self, k: u8) -> Option<i64> {
+        with_tracker(|t| t.read(Dep::TagCounter));
+        let view = self.0.get_tags();
+        view.tracked().get(&k).copied()
     }
 }
 
@@ -354,6 +369,14 @@ pub fn remove_cell(db: &mut SimDb, k: u8) {
     let id = *db.get_cells().untracked().get(&k).expect("harness: key present");
     db.remove(id);
     db.get_cells_mut().tracked().remove(&k);
+}
+
+pub fn tag_set(db: &mut SimDb, k: u8, v: i64) {
+    db.get_tags_mut().tracked().insert(k, v);
+}
+
+pub fn tag_remove(db: &mut SimDb, k: u8) {
+    db.get_tags_mut().tracked().remove(&k);
 }
 
 pub fn touch_map(db: &mut SimDb) {
